@@ -6,6 +6,8 @@
 #include "vrt_alloc.h"
 #include "vrt_st.h"
 #include "gen_text.h"
+#include "gen_scale.h"
+#include "ambient.h"
 #include <climits>
 #include <cerrno>
 #include <type_traits>
@@ -55,6 +57,165 @@ static ST::string lib_from(T v, int base, bool upper)
 static void viol(const char *tn, const char *what, const std::string &detail)
 {
     vrt::violation(sfmt("C12:%s:%s", what, tn), detail);
+}
+
+// ---------------------------------------------------------------- the digits inside a larger output
+template <typename T>
+static void stream_put(ST::string_stream &ss, T v)
+{
+    if constexpr (sizeof(T) < sizeof(int)) {
+        if constexpr (std::is_signed<T>::value) ss << static_cast<int>(v); else ss << static_cast<unsigned int>(v);
+    } else ss << v;
+}
+
+// ST::format digits for {}, {d}, {x}, {X}, {o}, {b}; with literal text (no braces) before and after the field, or - `prefix_as_argument`
+// - with the text before the field coming from a string argument, so that the digits land at any offset of the output
+template <typename T>
+static void format_digits(T v, const S &prefix, const S &tail, bool prefix_as_argument)
+{
+    const char *tn = Name<T>::get();
+    struct F { const char *fmt; int base; bool upper; };
+    static const F fmts[] = {{"{}", 10, false}, {"{d}", 10, false}, {"{x}", 16, false}, {"{X}", 16, true}, {"{o}", 8, false}, {"{b}", 2, false}};
+    for (const F &f : fmts) {
+        ST::string t;
+        if (prefix.empty() && tail.empty()) t = ST::format(f.fmt, v);
+        else if (prefix_as_argument) {
+            const S fs = S("{}") + f.fmt + tail;
+            vrt::Exact<char> fe(fs.data(), fs.size(), true);
+            t = ST::format(fe.data(), vrt::mk(prefix), v);
+        } else {
+            const S fs = prefix + f.fmt + tail;
+            vrt::Exact<char> fe(fs.data(), fs.size(), true);
+            t = ST::format(fe.data(), v);
+        }
+        vrt::evals();
+        const S digits = ref_text(v, f.base, f.upper);
+        if (prefix.empty() && tail.empty()) {
+            if (vrt::str_of(t) != digits)
+                viol(tn, "format-digits", sfmt("value=%s fmt=%s got=%s want=%s", ref_text(v, 10, false).c_str(), f.fmt, vrt::str_of(t).c_str(), digits.c_str()));
+        } else {
+            const S got = vrt::str_of(t), want = prefix + digits + tail;
+            if (got != want) {
+                const size_t at = scale::first_diff(got, want);
+                viol(tn, "format-digits", sfmt("value=%s fmt=%s after %zu bytes of %s: got %s want %s (first difference at %zu)", ref_text(v, 10, false).c_str(), f.fmt, prefix.size(),
+                                               prefix_as_argument ? "a string argument" : "literal text", scale::brief(got, at).c_str(), scale::brief(want, at).c_str(), at));
+            }
+            vrt::count("format.digits_inside_big_output");
+        }
+    }
+}
+
+// how a stream came to hold what it holds before the number goes in
+enum History { ONE_APPEND, CHUNKS, GROWN_THEN_TRUNCATED, NUMBERS, MOVED, N_HISTORIES };
+static const char *history_name(unsigned h)
+{
+    static const char *const n[] = {"one_append", "chunks", "grown_then_truncated", "numbers", "moved"};
+    return n[h % N_HISTORIES];
+}
+
+// text of exactly `fill` bytes that tells positions apart (a block copied to or from the wrong offset shows)
+static S position_pattern(size_t fill, char c)
+{
+    S p(fill, c);
+    if (c != 0) return p;
+    for (size_t i = 0; i < fill; ++i) p[i] = static_cast<char>('a' + (i + i / 251 + i / 65521) % 26);
+    return p;
+}
+
+// Brings `ss` to hold `prefix` (history NUMBERS rewrites `prefix`: most of it becomes decimal numbers that went in through <<).
+static void fill_stream(ST::string_stream &ss, S &prefix, unsigned history, Rng *r)
+{
+    const size_t fill = prefix.size();
+    switch (r ? history : ONE_APPEND) {
+    case CHUNKS: {          // many appends: the buffer goes through every doubling on the way
+        size_t done = 0;
+        while (done < fill) {
+            size_t n = r->chance(1, 4) ? 1 + r->below(16) : r->chance(1, 2) ? 1 + r->below(700) : 1 + r->below(40000);
+            n = std::min(n, fill - done);
+            if (n == 1 && r->chance(1, 2)) ss.append_char(prefix[done]); else ss.append(prefix.data() + done, n);
+            done += n;
+        }
+        break;
+    }
+    case GROWN_THEN_TRUNCATED: {   // capacity left over from a bigger past
+        const S junk(fill + 1 + r->below(2 * fill + 600), '#');
+        if (r->chance(1, 2)) {
+            ss.append(junk.data(), junk.size());
+            ss.truncate(0);
+            ss.append(prefix.data(), prefix.size());
+        } else {
+            ss.append(prefix.data(), prefix.size());
+            ss.append(junk.data(), junk.size());
+            if (r->chance(1, 2)) ss.truncate(fill); else ss.erase(junk.size());
+        }
+        break;
+    }
+    case NUMBERS: {         // thousands of consecutive insertions into one object
+        S model;
+        model.reserve(fill);
+        uint64_t inserts = 0;
+        while (model.size() + 24 <= fill) {
+            uint64_t bits = r->next();
+            const unsigned keep = 1 + static_cast<unsigned>(r->below(64));
+            if (keep < 64) bits &= (1ull << keep) - 1;
+            switch (r->below(4)) {
+            case 0: { const long long x = static_cast<long long>(bits); ss << x; model += ref_text(x, 10, false); break; }
+            case 1: { const unsigned long x = static_cast<unsigned long>(bits); ss << x; model += ref_text(x, 10, false); break; }
+            case 2: { const int x = static_cast<int>(bits); ss << x; model += ref_text(x, 10, false); break; }
+            default: { const unsigned x = static_cast<unsigned>(bits); ss << x; model += ref_text(x, 10, false); break; }
+            }
+            ss << ',';
+            model += ',';
+            ++inserts;
+        }
+        vrt::count("scale.consecutive_number_inserts", inserts);
+        const size_t rest = fill - model.size();
+        ss.append_char('p', rest);
+        model.append(rest, 'p');
+        prefix = model;
+        break;
+    }
+    default:
+        ss.append(prefix.data(), prefix.size());
+        break;
+    }
+}
+
+// A number streamed into a stream that already holds text: the digits end (`end_anchored`) or start just below, at and just
+// beyond `mark`, and more text follows.
+template <typename T>
+static void nearly_full_stream(T v, size_t mark, bool end_anchored, unsigned history, char pattern, Rng *r)
+{
+    const char *tn = Name<T>::get();
+    const S want = ref_text(v, 10, false);
+    for (int d = -2; d <= 2; ++d) {
+        const long start = static_cast<long>(mark) - (end_anchored ? static_cast<long>(want.size()) : 0) + d;
+        if (start < 0) continue;
+        const size_t fill = static_cast<size_t>(start);
+        S prefix = position_pattern(fill, pattern);
+        vrt::Box<ST::string_stream> ss;
+        if (r && history == MOVED) {        // the stream that takes the number was move-constructed, the one that is read move-assigned
+            vrt::Box<ST::string_stream> first;
+            fill_stream(*first, prefix, CHUNKS, r);
+            vrt::Box<ST::string_stream> second(std::move(*first));
+            stream_put<T>(*second, v);
+            *second << "tail";
+            *ss = std::move(*second);
+        } else {
+            fill_stream(*ss, prefix, history, r);
+            stream_put<T>(*ss, v);
+            *ss << "tail";
+        }
+        const S got(ss->raw_buffer(), ss->size());
+        vrt::evals();
+        if (got != prefix + want + "tail") {
+            const S all = prefix + want + "tail";
+            const size_t at = scale::first_diff(got, all);
+            viol(tn, "string_stream-digits:nearly-full-stream", sfmt("value=%s after %zu bytes (%s): got ...%s; %s, first difference at %zu", want.c_str(), fill, history_name(r ? history : 0),
+                                                                   got.substr(got.size() > 40 ? got.size() - 40 : 0).c_str(), scale::brief(got, at).c_str(), at));
+        }
+        vrt::count("stream.nearly_full_inserts");
+    }
 }
 
 // parse `text` with every to_* member wide enough for T and expect `v`
@@ -127,45 +288,18 @@ static void value_case(T v, bool all_bases)
         }
     }
     // the same digits through ST::format and string_stream
-    struct F { const char *fmt; int base; bool upper; };
-    static const F fmts[] = {{"{}", 10, false}, {"{d}", 10, false}, {"{x}", 16, false}, {"{X}", 16, true}, {"{o}", 8, false}, {"{b}", 2, false}};
-    for (const F &f : fmts) {
-        ST::string t = ST::format(f.fmt, v);
-        vrt::evals();
-        S want = ref_text(v, f.base, f.upper);
-        if (vrt::str_of(t) != want)
-            viol(tn, "format-digits", sfmt("value=%s fmt=%s got=%s want=%s", ref_text(v, 10, false).c_str(), f.fmt, vrt::str_of(t).c_str(), want.c_str()));
-    }
+    format_digits<T>(v, S(), S(), false);
     {
         vrt::Box<ST::string_stream> ss;
-        if constexpr (sizeof(T) < sizeof(int)) {
-            if constexpr (std::is_signed<T>::value) *ss << static_cast<int>(v); else *ss << static_cast<unsigned int>(v);
-        } else *ss << v;
+        stream_put<T>(*ss, v);
         vrt::evals();
         S got(ss->raw_buffer(), ss->size()), want = ref_text(v, 10, false);
         if (got != want) viol(tn, "string_stream-digits", sfmt("value=%s got=%s", want.c_str(), got.c_str()));
     }
     // ... and into a stream that is already nearly full: the digits (and the sign) end just below, at and just beyond the
     // in-object capacity (256) and the first heap capacity (512), and more text follows (a regrow must keep every digit)
-    {
-        const S want = ref_text(v, 10, false);
-        for (size_t cap : {size_t(256), size_t(512)})
-            for (int d = -2; d <= 2; ++d) {
-                const size_t fill = cap - want.size() + static_cast<size_t>(d + 2) - 2;
-                vrt::Box<ST::string_stream> ss;
-                const S prefix(fill, 'p');
-                ss->append(prefix.data(), prefix.size());
-                if constexpr (sizeof(T) < sizeof(int)) {
-                    if constexpr (std::is_signed<T>::value) *ss << static_cast<int>(v); else *ss << static_cast<unsigned int>(v);
-                } else *ss << v;
-                *ss << "tail";
-                vrt::evals();
-                S got(ss->raw_buffer(), ss->size());
-                if (got != prefix + want + "tail")
-                    viol(tn, "string_stream-digits:nearly-full-stream", sfmt("value=%s after %zu bytes: got ...%s", want.c_str(), fill, got.substr(got.size() > 40 ? got.size() - 40 : 0).c_str()));
-                vrt::count("stream.nearly_full_inserts");
-            }
-    }
+    for (size_t cap : {size_t(256), size_t(512)})
+        nearly_full_stream<T>(v, cap, true, ONE_APPEND, 'p', nullptr);
     vrt::count(std::string("values.") + tn);
 }
 
@@ -342,8 +476,103 @@ static S gen_numeral(Rng &r, int &base)
     return t;
 }
 
+// ---------------------------------------------------------------- scale: numerals of several KiB up to ~1 MiB
+// white space, sign, prefix, a run of zeros, a run of digits, then (optionally) a byte that stops the C library and more bytes
+struct BigNumeral {
+    size_t W = 0, Z = 0, D = 0, J = 0;
+    S sign, prefix;
+    int base = 10;
+    size_t planned() const { return W + sign.size() + prefix.size() + Z + D; }
+};
+
+static int effective_base(const BigNumeral &p)
+{
+    if (p.base != 0) return p.base;
+    if (!p.prefix.empty()) return 16;
+    return p.Z > 0 ? 8 : 10;
+}
+
+static void put_digits(Rng &r, S &t, size_t n, int eff, bool first_nonzero)
+{
+    const unsigned style = static_cast<unsigned>(r.below(3));      // one digit repeated / random digits / the largest digit
+    const unsigned fixed = style == 2 ? static_cast<unsigned>(eff - 1) : static_cast<unsigned>(r.below(eff));
+    const bool upper = r.chance(1, 2);
+    for (size_t i = 0; i < n; ++i) {
+        unsigned d = style == 1 ? static_cast<unsigned>(r.below(eff)) : fixed;
+        if (i == 0 && first_nonzero && d == 0) d = 1;
+        t += static_cast<char>(d < 10 ? '0' + d : (upper ? 'A' : 'a') + d - 10);
+    }
+}
+
+static S big_numeral_text(Rng &r, const BigNumeral &p)
+{
+    const int eff = effective_base(p);
+    S t;
+    t.reserve(p.planned() + p.J);
+    {
+        static const char ws[] = " \t\n\v\f\r";
+        if (r.chance(1, 2)) t.append(p.W, ws[r.below(6)]);
+        else for (size_t i = 0; i < p.W; ++i) t += ws[r.below(6)];
+    }
+    t += p.sign;
+    t += p.prefix;
+    t.append(p.Z, '0');
+    put_digits(r, t, p.D, eff, p.Z == 0 || p.D <= 20);
+    if (p.J) {
+        S stoppers = S(" ._-+,\xe9") + S(1, '\0') + S(1, '\0');
+        if (eff < 36) stoppers += 'z';
+        if (eff <= 16) stoppers += "gG";
+        if (eff < 10) stoppers += static_cast<char>('0' + eff);
+        if (eff <= 10) stoppers += "ae";
+        t += stoppers[r.below(stoppers.size())];
+        const size_t rest = p.J - 1;
+        switch (r.below(3)) {
+        case 0: put_digits(r, t, rest, eff, false); break;            // what follows would parse, had the C library not stopped
+        case 1: { S al = " x.9_0\xc3"; al.push_back('\0'); t += scale::byte_background(r, rest, al); break; }
+        default: t.append(rest, "x 9"[r.below(3)]); break;
+        }
+    }
+    return t;
+}
+
+// splits `consumed` characters over white space / sign / prefix / zeros / digits
+static void plan_consumed(Rng &r, BigNumeral &p, size_t consumed)
+{
+    static const char *const signs[] = {"", "", "-", "+"};
+    p.sign = r.pick(signs);
+    p.prefix = ((p.base == 0 || p.base == 16) && r.chance(1, 3)) ? (r.chance(1, 2) ? "0x" : "0X") : "";
+    if (consumed < p.sign.size() + p.prefix.size() + 1) { p.sign.clear(); p.prefix.clear(); }
+    if (consumed == 0) consumed = 1;
+    const size_t R = consumed - p.sign.size() - p.prefix.size();
+    const size_t few = 1 + r.below(std::min<size_t>(R, 15));
+    switch (r.below(4)) {
+    case 0:     // a long run of white space, then a value that fits
+        p.D = few;
+        p.Z = r.chance(1, 3) ? r.below(std::min<size_t>(R - p.D, 3) + 1) : 0;
+        p.W = R - p.D - p.Z;
+        break;
+    case 1:     // a long run of zeros, then a value that fits
+        p.D = few;
+        p.W = r.chance(1, 3) ? r.below(std::min<size_t>(R - p.D, 5) + 1) : 0;
+        p.Z = R - p.D - p.W;
+        break;
+    case 2:     // a long run of digits (the result saturates)
+        p.W = r.chance(1, 3) ? r.below(std::min<size_t>(R - 1, 5) + 1) : 0;
+        p.Z = r.chance(1, 4) ? r.below(std::min<size_t>(R - 1 - p.W, 3) + 1) : 0;
+        p.D = R - p.W - p.Z;
+        break;
+    default:    // all three long
+        p.W = r.below(R);
+        p.Z = r.below(R - p.W);
+        p.D = R - p.W - p.Z;
+        if (p.D == 0) { p.D = 1; if (p.Z) --p.Z; else --p.W; }
+        break;
+    }
+}
+
 static void body()
 {
+    ambient::enable(3);
     vrt::require("values.short", 65536);
     vrt::require("values.unsigned short", 65536);
     vrt::require("values.int", 1000);
@@ -393,6 +622,169 @@ static void body()
         parse_case(t, base);
         if (vrt::want_sample("parse_random") && t.size() > 6) vrt::sample("parse_random", sfmt("text=%s base=%d", show(t).c_str(), base));
     });
+    // scale: texts of several KiB up to ~1 MiB.  The case index walks a grid: block size B x multiple q x what is measured in
+    // multiples of B (the length the C library consumes / the total length / the length of what follows the numeral / the
+    // position of an embedded NUL inside the digits / the run of white space / the run of leading zeros); every grid point is
+    // tried on the multiple and right next to it
+    {
+        vrt::require("scale.parse_texts", 1000);
+        vrt::require("scale.consumed>=64KiB", 100);
+        vrt::require("scale.consumed_is_multiple_of_256", 100);
+        vrt::require("scale.consumed_is_multiple_of_65536", 20);
+        vrt::require("scale.full_match>=64KiB", 20);
+        vrt::require("scale.full_match_on_multiple_of_65536", 3);
+        vrt::require("scale.total_is_multiple_of_65536", 10);
+        vrt::require("scale.embedded_NUL_beyond_64KiB", 10);
+        vrt::require("scale.saturated_by_long_digit_run", 100);
+        vrt::require("scale.value_after_4KiB_of_blanks_or_zeros", 100);
+        vrt::require("scale.text>=256KiB", 20);
+        const std::vector<size_t> &BL = scale::blocks();
+        const size_t grid = BL.size() * 8, origins = 6;
+        vrt::phase("scale_parse", vrt::tier_count(grid * origins, grid * origins * 30), [&](uint64_t i, Rng &r) {
+            const size_t B = BL[i % BL.size()], q = 1 + (i / BL.size()) % 8;
+            const unsigned origin = static_cast<unsigned>((i / grid) % origins);
+            const size_t T = q * B;
+            if (T > 1310720) { vrt::count("scale.skipped_too_large"); return; }
+            static const int bases[] = {0, 0, 10, 10, 16, 2, 8, 36, 3, 7, 35};
+            static const char *const oname[] = {"consumed length", "total length", "length after the numeral", "position of a NUL inside the digits", "white-space run", "run of leading zeros"};
+            const long nudges[4] = {0, -1, 1, r.chance(1, 2) ? static_cast<long>(2 + r.below(8)) : -static_cast<long>(2 + r.below(8))};
+            for (long d : nudges) {
+                if (static_cast<long>(T) + d < 1) continue;
+                const size_t t = static_cast<size_t>(static_cast<long>(T) + d);
+                BigNumeral p;
+                p.base = r.pick(bases);
+                const size_t some = r.chance(1, 3) ? r.below(40) : r.chance(1, 2) ? 1000 + r.below(70000) : 131072 + r.below(140000);
+                S text;
+                switch (origin) {
+                case 0:                     // the C library stops after t characters
+                    plan_consumed(r, p, t);
+                    p.J = r.chance(1, 4) ? 0 : 1 + some;
+                    text = big_numeral_text(r, p);
+                    break;
+                case 1:                     // the text is t characters long; nothing, little or a lot follows the numeral
+                    p.J = r.chance(1, 2) ? 0 : r.chance(1, 2) ? 1 + r.below(9) : 1 + r.below(t);
+                    if (p.J >= t) p.J = t - 1;
+                    plan_consumed(r, p, t - p.J);
+                    text = big_numeral_text(r, p);
+                    break;
+                case 2:                     // t characters follow the numeral
+                    plan_consumed(r, p, r.chance(1, 2) ? 1 + r.below(40) : scale::length(r, 300000, 1));
+                    p.J = t;
+                    text = big_numeral_text(r, p);
+                    break;
+                case 3: {                   // a NUL at offset t in the middle of a run of digits
+                    plan_consumed(r, p, t);
+                    p.J = 0;
+                    text = big_numeral_text(r, p);
+                    text.push_back('\0');
+                    put_digits(r, text, 1 + some, effective_base(p), false);
+                    break;
+                }
+                case 4:                     // exactly t characters of white space
+                    plan_consumed(r, p, r.chance(1, 2) ? 1 + r.below(24) : scale::length(r, 200000, 1));
+                    p.W = t;
+                    p.J = r.chance(1, 2) ? 0 : 1 + r.below(300);
+                    text = big_numeral_text(r, p);
+                    break;
+                default:                    // exactly t leading zeros
+                    plan_consumed(r, p, r.chance(1, 2) ? 1 + r.below(24) : scale::length(r, 200000, 1));
+                    p.Z = t;
+                    p.J = r.chance(1, 2) ? 0 : 1 + r.below(300);
+                    text = big_numeral_text(r, p);
+                    break;
+                }
+                // what the C library makes of it (bookkeeping only; parse_case asks the C library itself, member by member)
+                char *endp = nullptr;
+                errno = 0;
+                const unsigned long long val = strtoull(text.c_str(), &endp, p.base);
+                const bool range = errno == ERANGE;
+                const size_t consumed = static_cast<size_t>(endp - text.c_str());
+                parse_case(text, p.base);
+                vrt::count("scale.parse_texts");
+                vrt::count(consumed == p.planned() ? "scale.consumed_as_planned" : "scale.consumed_other_than_planned");
+                if (consumed >= 65536) vrt::count("scale.consumed>=64KiB");
+                if (consumed && consumed % 256 == 0) vrt::count("scale.consumed_is_multiple_of_256");
+                if (consumed && consumed % 65536 == 0) vrt::count("scale.consumed_is_multiple_of_65536");
+                if (consumed == text.size() && consumed >= 65536) vrt::count("scale.full_match>=64KiB");
+                if (consumed == text.size() && consumed % 65536 == 0) vrt::count("scale.full_match_on_multiple_of_65536");
+                if (text.size() % 65536 == 0) vrt::count("scale.total_is_multiple_of_65536");
+                if (text.size() >= 262144) vrt::count("scale.text>=256KiB");
+                { const size_t z = text.find('\0'); if (z != S::npos && z >= 65536) vrt::count("scale.embedded_NUL_beyond_64KiB"); }
+                if (range && p.D >= 4096) vrt::count("scale.saturated_by_long_digit_run");
+                if (!range && val != 0 && p.W + p.Z >= 4096) vrt::count("scale.value_after_4KiB_of_blanks_or_zeros");
+                if (vrt::want_sample("scale"))
+                    vrt::sample("scale", sfmt("parse: text %s base=%d: %zu blanks, sign '%s', prefix '%s', %zu zeros, %zu digits, %zu more bytes; %s = %zu x %zu %+ld; the C library consumes %zu",
+                                              scale::brief(text).c_str(), p.base, p.W, p.sign.c_str(), p.prefix.c_str(), p.Z, p.D, text.size() - p.planned(), oname[origin], q, B, d, consumed));
+            }
+            vrt::count(sfmt("scale.measured.%s", oname[origin]));
+        });
+    }
+    // scale: digits into streams / ST::format outputs that already hold 4 KiB .. 1 MiB, the digits ending or starting on and next
+    // to q x B bytes (every capacity the stream goes through is among them), the text before them put there in one piece, in
+    // many pieces, left over in a buffer that was bigger once, as thousands of numbers, or in a stream that was moved
+    {
+        vrt::require("scale.stream_cases", 100);
+        vrt::require("scale.stream>=64KiB", 50);
+        vrt::require("scale.stream>=1MiB", 2);
+        vrt::require("scale.consecutive_number_inserts", 10000);
+        vrt::require("format.digits_inside_big_output", 1000);
+        const std::vector<size_t> &BL = scale::blocks();
+        const size_t grid = BL.size() * 8;
+        vrt::phase("scale_stream", vrt::tier_count(grid * 4, grid * 100), [&](uint64_t i, Rng &r) {
+            const size_t B = BL[i % BL.size()], q = 1 + (i / BL.size()) % 8;
+            const size_t k = i / grid;
+            const unsigned history = static_cast<unsigned>((k + i) % N_HISTORIES);
+            const bool end_anchored = (i / BL.size() + k) % 2 == 0;
+            const size_t T = q * B;
+            if (T > 1310720) { vrt::count("scale.skipped_too_large"); return; }
+            auto with = [&](auto sample_value) {
+                typedef decltype(sample_value) T_;
+                typedef std::numeric_limits<T_> L;
+                T_ v;
+                switch (r.below(6)) {
+                case 0: v = L::min(); break;
+                case 1: v = L::max(); break;
+                case 2: v = static_cast<T_>(r.below(10)); break;
+                case 3: v = std::is_signed<T_>::value ? static_cast<T_>(-1 - static_cast<long long>(r.below(100))) : static_cast<T_>(L::max() - r.below(100)); break;
+                default: {
+                    uint64_t bits = r.next();
+                    const unsigned keep = 1 + static_cast<unsigned>(r.below(64));
+                    if (keep < 64) bits &= (1ull << keep) - 1;
+                    v = static_cast<T_>(bits);
+                    if (std::is_signed<T_>::value && r.chance(1, 2)) v = static_cast<T_>(0 - static_cast<typename std::make_unsigned<T_>::type>(v));
+                }
+                }
+                vrt::cur_rewind();
+                vrt::cur_printf("scale_stream type=%s value=%s mark=%zu x %zu digits %s there, history=%s\n", Name<T_>::get(), ref_text(v, 10, false).c_str(), q, B, end_anchored ? "end" : "start", history_name(history));
+                nearly_full_stream<T_>(v, T, end_anchored, history, static_cast<char>(r.chance(1, 4) ? 'p' : 0), &r);
+                // ST::format: the field starts / ends there in the output
+                const S digits10 = ref_text(v, 10, false);
+                for (int d = -1; d <= 1; ++d) {
+                    const long start = static_cast<long>(T) - (end_anchored ? static_cast<long>(digits10.size()) : 0) + d;
+                    if (start < 0) continue;
+                    const S prefix = position_pattern(static_cast<size_t>(start), 0);
+                    format_digits<T_>(v, prefix, r.chance(1, 2) ? "tail" : "", history % 2 == 1);
+                }
+                if (vrt::want_sample("scale_stream"))
+                    vrt::sample("scale_stream", sfmt("%s %s streamed / formatted behind text so that its digits %s at %zu x %zu -2..+2 bytes; the text before it: %s", Name<T_>::get(),
+                                                     digits10.c_str(), end_anchored ? "end" : "start", q, B, history_name(history)));
+            };
+            switch (r.below(8)) {
+            case 0: with(short()); break;
+            case 1: with(static_cast<unsigned short>(0)); break;
+            case 2: with(int()); break;
+            case 3: with(unsigned()); break;
+            case 4: with(long()); break;
+            case 5: with(static_cast<unsigned long>(0)); break;
+            case 6: with(static_cast<long long>(0)); break;
+            default: with(static_cast<unsigned long long>(0)); break;
+            }
+            vrt::count("scale.stream_cases");
+            vrt::count(sfmt("scale.stream_history.%s", history_name(history)));
+            if (T >= 65536) vrt::count("scale.stream>=64KiB");
+            if (T >= 1048576) vrt::count("scale.stream>=1MiB");
+        });
+    }
     vrt::alloc::check_pairing("ints");
 }
 
